@@ -1,0 +1,231 @@
+//go:build verif
+// +build verif
+
+// Contracts for property C17 (GC eligibility and exclusivity).
+//
+// Log (govc as of 6ab0802):
+//   gcCheckStart/gcCheckRange/getDiskFileSize/addRecord/add/IsGCRunning/getBucket/CancelGC/beginGCWriting: all discharged.
+//   gcCheckEnd: safety.overflow#5 (time.Now().Unix()-ts) open: the model of time.Time.Unix is any int64.
+//   HStore.GC: ensures#6 (accepted ==> registered) fails: defect F7, registration happens in the goroutine.
+//              ensures#5 (refused while running) fails only because govc loses the result of the inlined
+//              closure checkGC (defer inside an inlined closure of a function with named results).
+//              frame.ghost.spawned: no modifies designator exists for the spawn counter.
+//   GCMgr.gc: not under contract (whole body; math mode is rejected because of wrapRecord's bv contract).
+
+package store
+
+import "time"
+
+// ---------- C17: GC statistics counters ----------
+
+//@ func (s *GCFileState) addRecord
+//@   props C17
+//@   ints bv
+//@   requires uint64(size)+uint64(sizeBroken) <= 0xffffffff   // the code adds the two uint32 sizes before widening
+//@   modifies s.NumReleased, s.SizeReleased, s.NumReleasedDeleted, s.SizeDeleted, s.SizeBroken, s.SizeBefore, s.NumBefore
+//@   ensures s.NumBefore == old(s.NumBefore)+1
+//@   ensures s.SizeBefore == old(s.SizeBefore)+int64(size)+int64(sizeBroken)
+//@   ensures s.SizeBroken == old(s.SizeBroken)+int64(sizeBroken)
+//@   ensures !isNewest ==> s.NumReleased == old(s.NumReleased)+1 && s.SizeReleased == old(s.SizeReleased)+int64(size)+int64(sizeBroken)
+//@   ensures isNewest ==> s.NumReleased == old(s.NumReleased) && s.SizeReleased == old(s.SizeReleased)+int64(sizeBroken)
+//@   ensures !isNewest && isDeleted ==> s.NumReleasedDeleted == old(s.NumReleasedDeleted)+1 && s.SizeDeleted == old(s.SizeDeleted)+int64(size)
+//@   ensures isNewest || !isDeleted ==> s.NumReleasedDeleted == old(s.NumReleasedDeleted) && s.SizeDeleted == old(s.SizeDeleted)
+//@   ensures s.NumNotInHtree == old(s.NumNotInHtree)
+
+//@ func (s *GCFileState) add
+//@   props C17
+//@   ints bv
+//@   requires s2 != nil
+//@   modifies all(s)
+//@   ensures s.NumBefore == old(s.NumBefore)+old(s2.NumBefore) && s.NumReleased == old(s.NumReleased)+old(s2.NumReleased)
+//@   ensures s.NumReleasedDeleted == old(s.NumReleasedDeleted)+old(s2.NumReleasedDeleted) && s.SizeBefore == old(s.SizeBefore)+old(s2.SizeBefore)
+//@   ensures s.SizeBroken == old(s.SizeBroken)+old(s2.SizeBroken) && s.SizeDeleted == old(s.SizeDeleted)+old(s2.SizeDeleted)
+//@   ensures s.SizeReleased == old(s.SizeReleased)+old(s2.SizeReleased) && s.NumNotInHtree == old(s.NumNotInHtree)+old(s2.NumNotInHtree)
+//@   ensures s != s2 ==> s2.NumBefore == old(s2.NumBefore) && s2.SizeReleased == old(s2.SizeReleased)
+
+// ---------- C17: range resolution ----------
+
+// largest number of days whose length in seconds fits into int64 (the code computes int64(noGCDays)*86400)
+const specMaxDays = 106751991167300
+
+// size of the part of a data file that is on disk (records still buffered start at wbuf[0])
+func specDiskFileSize(dc *dataChunk) uint32 {
+	if len(dc.wbuf) > 0 && dc.wbuf[0] != nil {
+		return dc.wbuf[0].pos.Offset
+	}
+	return dc.size
+}
+
+//@ func (dc *dataChunk) getDiskFileSize
+//@   props C17
+//@   ints math
+//@   requires len(dc.wbuf) > 0 ==> dc.wbuf[0] != nil
+//@   ensures result0 == specDiskFileSize(dc)
+
+// ghostFirstTs: timestamp field of the first record of the chunk's data file (ghost: a function of
+// the chunk; natively read from the file)
+func ghostFirstTs(dc *dataChunk) int64 {
+	ts, _ := dc.getFirstRecTs()
+	return ts
+}
+
+//@ func ghostFirstTs
+//@   uninterpreted timestamp of the first record of the chunk's file
+
+// ghostNow: the last value read from the clock (seconds since 1970)
+func ghostNow() int64 { return time.Now().Unix() }
+
+// modifies designators for the ghost clock and the ghost spawn counter
+func ghostClock() bool { return true }
+func ghostSpawn() bool { return true }
+
+// the age limit in effect: a negative request means the configured value
+func specEffDays(noGCDays int) int {
+	if noGCDays < 0 {
+		return Conf.NoGCDays
+	}
+	return noGCDays
+}
+
+//@ func (dc *dataChunk) getFirstRecTs
+//@   props C17
+//@   ints math
+//@   assumed file I/O (os.Open, ReadAt): timestamp of the first record of the file, any value of a uint32 field; any error
+//@   ensures err == nil ==> 0 <= ts && ts <= 0xffffffff && ts == ghostFirstTs(dc)
+
+//@ func (bkt *Bucket) gcCheckStart
+//@   props C17
+//@   ints math
+//@   requires bkt.datas != nil && 0 <= bkt.datas.newHead && bkt.datas.newHead < MAX_NUM_CHUNK
+//@   requires 0 <= bkt.NextGCChunk && bkt.NextGCChunk <= MAX_NUM_CHUNK
+//@   ensures err == nil ==> 0 <= start && start <= MAX_NUM_CHUNK
+//@   ensures err == nil && start < bkt.datas.newHead ==> bkt.datas.chunks[start].size > 0
+//@   ensures err == nil && startChunkID >= 0 ==> startChunkID <= start && start <= bkt.datas.newHead
+//@   ensures err == nil && startChunkID < 0 ==> bkt.NextGCChunk <= start
+//@   loop 1 invariant 0 <= start && start <= MAX_NUM_CHUNK && err == nil
+//@   loop 1 invariant startChunkID >= 0 ==> startChunkID <= start && start <= bkt.datas.newHead
+//@   loop 1 invariant startChunkID < 0 ==> bkt.NextGCChunk <= start
+
+// Age limit.  The deciding file `n` of the last postcondition below is the file whose first-record
+// timestamp passed the test time.Now().Unix()-ts > noGCDays*86400 (noGCDays < 0: Conf.NoGCDays).
+// The test itself cannot be stated: the verifier gives every time.Now().Unix() call a fresh
+// unnamed value, and there is no ghost clock a contract could refer to.  What is stated is the
+// structure around it: success needs a file with on-disk data after `end`, not beyond the
+// (clipped) requested end + 1, with only empty files between `end` and it.
+// Preconditions: the day counts must not overflow int64 seconds (gobeansdb/web.go passes the
+// "nogcdays" form value unchecked).
+//@ func (bkt *Bucket) gcCheckEnd
+//@   props C17
+//@   ints math
+//@   requires bkt.datas != nil && 0 <= bkt.datas.newHead && bkt.datas.newHead < MAX_NUM_CHUNK
+//@   requires forall(0, MAX_NUM_CHUNK, func(i int) bool { return len(bkt.datas.chunks[i].wbuf) > 0 ==> bkt.datas.chunks[i].wbuf[0] != nil })
+//@   requires 0 <= start && start <= MAX_NUM_CHUNK && Conf != nil
+//@   requires noGCDays <= specMaxDays && -specMaxDays <= Conf.NoGCDays && Conf.NoGCDays <= specMaxDays
+//@   ensures err == nil ==> start-1 <= end && end <= bkt.datas.newHead-1
+//@   ensures err == nil && end >= start ==> bkt.datas.chunks[end].size > 0
+//@   ensures err == nil && endChunkID >= 0 ==> end <= endChunkID
+//@   modifies ghostClock()
+//@   ensures err == nil ==> exists(end+1, bkt.datas.newHead+1, func(n int) bool { return specDiskFileSize(&bkt.datas.chunks[n]) > 0 && (endChunkID >= 0 ==> n <= endChunkID+1) && forall(end+1, n, func(j int) bool { return bkt.datas.chunks[j].size == 0 }) && ghostNow()-ghostFirstTs(&bkt.datas.chunks[n]) > int64(specEffDays(noGCDays))*86400 })
+//@   loop 1 invariant err == nil && -1 <= end && end <= bkt.datas.newHead-1 && (endChunkID >= 0 ==> end <= endChunkID) && next <= end+1
+//@   loop 1 invariant -specMaxDays <= noGCDays && noGCDays <= specMaxDays
+//@   loop 2 invariant err == nil && start-1 <= end && end <= next-1 && next <= bkt.datas.newHead && (endChunkID >= 0 ==> next <= endChunkID+1)
+//@   loop 2 invariant specDiskFileSize(&bkt.datas.chunks[next]) > 0 && forall(end+1, next, func(j int) bool { return bkt.datas.chunks[j].size == 0 })
+
+//@ func (bkt *Bucket) gcCheckRange
+//@   props C17
+//@   ints math
+//@   requires bkt.datas != nil && 0 <= bkt.datas.newHead && bkt.datas.newHead < MAX_NUM_CHUNK
+//@   requires forall(0, MAX_NUM_CHUNK, func(i int) bool { return len(bkt.datas.chunks[i].wbuf) > 0 ==> bkt.datas.chunks[i].wbuf[0] != nil })
+//@   requires 0 <= bkt.NextGCChunk && bkt.NextGCChunk <= MAX_NUM_CHUNK && Conf != nil
+//@   requires noGCDays <= specMaxDays && -specMaxDays <= Conf.NoGCDays && Conf.NoGCDays <= specMaxDays
+//@   ensures err == nil ==> 0 <= start && start <= end && end <= bkt.datas.newHead-1                      // the head chunk (receiving appends) is never in range
+//@   ensures err == nil ==> bkt.datas.chunks[start].size > 0 && bkt.datas.chunks[end].size > 0
+//@   ensures err == nil && startChunkID >= 0 ==> startChunkID <= start
+//@   ensures err == nil && startChunkID < 0 ==> bkt.NextGCChunk <= start
+//@   ensures err == nil && endChunkID >= 0 ==> end <= endChunkID
+//@   modifies ghostClock()
+//@   ensures err == nil ==> exists(end+1, bkt.datas.newHead+1, func(n int) bool { return specDiskFileSize(&bkt.datas.chunks[n]) > 0 && (endChunkID >= 0 ==> n <= endChunkID+1) && forall(end+1, n, func(j int) bool { return bkt.datas.chunks[j].size == 0 }) && ghostNow()-ghostFirstTs(&bkt.datas.chunks[n]) > int64(specEffDays(noGCDays))*86400 })
+
+// ---------- C17: admission of a GC request ----------
+
+// ghost counters maintained by the verifier (number of go statements executed, lock nesting depth)
+func ghostSpawned() int   { return 0 }
+func ghostLockDepth() int { return 0 }
+
+// a GC pass is registered as running on the bucket
+func specGCRunning(mgr *GCMgr, bkt *Bucket) bool {
+	_, ok := mgr.stat[bkt]
+	return ok
+}
+
+//@ func (store *HStore) GC
+//@   props C17
+//@   ints math
+//@   requires store.gcMgr != nil && store.gcMgr.stat != nil && Conf != nil && Conf.NumBucket <= len(store.buckets)
+//@   requires 0 <= bucketID                                  // O5: a negative bucket id is not rejected by the code (index panic)
+//@   requires bucketID < Conf.NumBucket ==> store.buckets[bucketID] != nil
+//@   requires bucketID < Conf.NumBucket && store.buckets[bucketID].State == BUCKET_STAT_READY ==> store.buckets[bucketID].datas != nil && 0 <= store.buckets[bucketID].datas.newHead && store.buckets[bucketID].datas.newHead < MAX_NUM_CHUNK
+//@   requires bucketID < Conf.NumBucket && store.buckets[bucketID].State == BUCKET_STAT_READY ==> forall(0, MAX_NUM_CHUNK, func(i int) bool { return len(store.buckets[bucketID].datas.chunks[i].wbuf) > 0 ==> store.buckets[bucketID].datas.chunks[i].wbuf[0] != nil })
+//@   requires bucketID < Conf.NumBucket && store.buckets[bucketID].State == BUCKET_STAT_READY ==> 0 <= store.buckets[bucketID].NextGCChunk && store.buckets[bucketID].NextGCChunk <= MAX_NUM_CHUNK
+//@   requires noGCDays <= specMaxDays && -specMaxDays <= Conf.NoGCDays && Conf.NoGCDays <= specMaxDays
+//@   modifies ghostClock(), ghostSpawn(), elems(store.gcMgr.stat)
+//@   ensures err != nil || pretend ==> ghostSpawned() == old(ghostSpawned())                                  // refused or pretend: nothing is started
+//@   ensures err == nil && !pretend ==> ghostSpawned() == old(ghostSpawned())+1                               // accepted: exactly one pass is started
+//@   ensures err != nil || pretend ==> len(store.gcMgr.stat) == old(len(store.gcMgr.stat)) && forall(0, len(store.buckets), func(i int) bool { return specGCRunning(store.gcMgr, store.buckets[i]) == old(specGCRunning(store.gcMgr, store.buckets[i])) })   // refused or pretend: the registry is unchanged (the empty modifies clause says the same for every location)
+//@   ensures err == nil ==> bucketID < Conf.NumBucket && store.buckets[bucketID].State == BUCKET_STAT_READY
+//@   ensures err == nil ==> !old(specGCRunning(store.gcMgr, store.buckets[bucketID]))                        // a request while a pass is registered is refused
+//@   ensures err == nil && !pretend ==> specGCRunning(store.gcMgr, store.buckets[bucketID])                   // F7: accepted ==> registered as running before GC returns
+//@   ensures err == nil ==> 0 <= begin && begin <= end && end <= store.buckets[bucketID].datas.newHead-1
+//@   ensures err == nil ==> store.buckets[bucketID].datas.chunks[begin].size > 0 && store.buckets[bucketID].datas.chunks[end].size > 0
+//@   ensures err == nil && beginChunkID >= 0 ==> beginChunkID <= begin
+//@   ensures err == nil && endChunkID >= 0 ==> end <= endChunkID
+//@   ensures ghostLockDepth() == old(ghostLockDepth())
+
+//@ func (store *HStore) IsGCRunning
+//@   props C17
+//@   ints math
+//@   requires store.gcMgr != nil
+//@   ensures result0 == (len(store.gcMgr.stat) > 0)
+//@   ensures ghostLockDepth() == old(ghostLockDepth())
+
+//@ func (store *HStore) getBucket
+//@   props C17
+//@   ints math
+//@   requires forall(0, len(store.buckets), func(i int) bool { return store.buckets[i] != nil })
+//@   ensures result0 != nil ==> 0 <= bucketID && bucketID < len(store.buckets) && result0 == store.buckets[bucketID] && result0.State == BUCKET_STAT_READY
+//@   ensures result0 == nil ==> bucketID < 0 || bucketID >= len(store.buckets) || store.buckets[bucketID].State != BUCKET_STAT_READY
+
+// the bucket a cancel request addresses (nil: no such bucket / not ready)
+func specReadyBucket(store *HStore, bucketID int) *Bucket {
+	if bucketID < 0 || bucketID >= len(store.buckets) || store.buckets[bucketID] == nil || store.buckets[bucketID].State != BUCKET_STAT_READY {
+		return nil
+	}
+	return store.buckets[bucketID]
+}
+
+//@ func (store *HStore) CancelGC
+//@   props C17
+//@   ints math
+//@   requires store.gcMgr != nil
+//@   requires forall(0, len(store.buckets), func(i int) bool { return store.buckets[i] != nil })
+//@   requires forall(0, len(store.buckets), func(i int) bool { return specGCRunning(store.gcMgr, store.buckets[i]) ==> store.gcMgr.stat[store.buckets[i]] != nil })
+//@   modifies store.gcMgr.stat[specReadyBucket(store, bucketID)].CancelFlag
+//@   ensures specReadyBucket(store, bucketID) != nil && specGCRunning(store.gcMgr, specReadyBucket(store, bucketID)) ==> store.gcMgr.stat[specReadyBucket(store, bucketID)].CancelFlag && src == store.gcMgr.stat[specReadyBucket(store, bucketID)].Src && dst == store.gcMgr.stat[specReadyBucket(store, bucketID)].Dst
+//@   ensures specReadyBucket(store, bucketID) == nil || !specGCRunning(store.gcMgr, specReadyBucket(store, bucketID)) ==> src == -1 && dst == -1
+//@   ensures ghostSpawned() == old(ghostSpawned()) && ghostLockDepth() == old(ghostLockDepth())
+
+// ---------- C17: the destination chunk of a GC pass ----------
+
+//@ func GetStreamWriter
+//@   props C17
+//@   ints math
+//@   assumed file I/O (os.Stat, OpenFile, Seek, Create): any writer or any error
+//@   ensures result1 != nil ==> result0 == nil
+
+//@ func (dc *dataChunk) beginGCWriting
+//@   props C17
+//@   ints math
+//@   modifies dc.rewriting, dc.writingHead, dc.gcWriter
+//@   ensures dc.chunkid == srcChunk ==> dc.rewriting && dc.writingHead == 0                                          // the first source file is rewritten in place
+//@   ensures dc.chunkid != srcChunk ==> dc.rewriting == old(dc.rewriting) && dc.writingHead == dc.size             // an earlier file is only appended to
+//@   ensures err != nil ==> dc.gcWriter == nil
